@@ -247,6 +247,15 @@ def scripted(bpc):
         # tell / seek(0, 1) between writes, seek to the position already held
         [["open", "h1", A, "w+"], ["write", "h1", "61" * bpc], ["seek", "h1", bpc, 0], ["write", "h1", "62" * 5], ["seek", "h1", 0, 1], ["tell", "h1"],
          ["seek", "h1", bpc + 5, 0], ["write", "h1", "63" * bpc], ["seek", "h1", bpc, 0], ["read", "h1", 7], ["hclose", "h1"]],
+        # read up to the END of a file whose size is an exact multiple of the cluster size - in one piece, cluster by cluster, and by an
+        # exact count - and write straight away, no seek in between (only tell); then the same through r+ after re-opening (C02-m6: read()
+        # kept its own cursor and left it on (last cluster, offset 0) where seek() holds (last cluster, offset = cluster size))
+        [["open", "h1", A, "w+"], ["write", "h1", "71" * (2 * bpc)], ["seek", "h1", 0, 0], ["read", "h1", -1], ["write", "h1", "72" * 10], ["tell", "h1"],
+         ["seek", "h1", 0, 0], ["read", "h1", -1], ["hclose", "h1"],
+         ["open", "h2", B, "w"], ["write", "h2", "73" * (3 * bpc)], ["hclose", "h2"], ["open", "h3", B, "r+"], ["read", "h3", bpc], ["read", "h3", bpc],
+         ["read", "h3", bpc], ["tell", "h3"], ["write", "h3", "74" * (bpc + 1)], ["tell", "h3"], ["seek", "h3", 0, 0], ["read", "h3", -1], ["hclose", "h3"],
+         ["open", "h4", A, "r+"], ["read", "h4", 2 * bpc + 10], ["write", "h4", "75" * 3], ["seek", "h4", bpc, 0], ["read", "h4", bpc], ["write", "h4", "76"],
+         ["seek", "h4", 0, 0], ["read", "h4", -1], ["hclose", "h4"]],
     ]
 
 
